@@ -36,7 +36,7 @@ MainStageLast ==
   HasMain => /\ Len(S) >= 1
              /\ S[Len(S)].n = R.nmain
              /\ S[Len(S)].adapters = {}
-             /\ S[Len(S)].traced /\ S[Len(S)].stats
+             /\ S[Len(S)].traced = R.hastrace /\ S[Len(S)].stats
 
 NoMainWhenZero == ~HasMain => \A i \in 1..Len(S) : S[i].label # "Main non-adaptive"
 
@@ -52,5 +52,7 @@ SlowInAllWindows == \A i \in 1..NWarmStages : S[i].slow => AllAd \subseteq S[i].
 WindowsGrow ==
   \A i, j \in 1..NWarmStages : (S[i].slow /\ S[j].slow /\ i < j /\ R.kind = "windowed") => S[i].n <= S[j].n \/ j = NWarmStages - 1
 
-WarmUpTracing == \A i \in 1..NWarmStages : S[i].traced = R.tracewarm /\ S[i].stats = R.tracewarm
+\* warm-up stages are traced iff warm-up tracing is on and there is something to trace; statistics are recorded
+\* iff warm-up tracing is on (also in statistics-only runs: trace_funcs = None)
+WarmUpTracing == \A i \in 1..NWarmStages : S[i].traced = (R.tracewarm /\ R.hastrace) /\ S[i].stats = R.tracewarm
 =============================================================================
